@@ -181,6 +181,8 @@ class Unit:
         self.exec_fns = []
         self.xexprs = {}  # helper name -> removed source text (R-XEXPR)
         self.lift_meta = {}  # virtual rel path -> lift meta (R-LIFT)
+        self.failed_lifts = {}  # alias -> reason: a lift whose structural checks refused; the blocks that use it are skipped
+        self.skipped = []  # (obligation, reason): functions not emitted because their lift was refused
 
     def emit(self, text):
         self.out.append(text)
@@ -379,7 +381,12 @@ def build_unit(name, tpl_path, canary=False):
             import lift as liftmod
             if pos[1] not in liftmod.VERUS_LIFTS:
                 raise ExtractError(f"{tpl_path}:{b.lineno}: unknown lift {pos[1]}")
-            text, meta = liftmod.VERUS_LIFTS[pos[1]](REPO)
+            try:
+                text, meta = liftmod.VERUS_LIFTS[pos[1]](REPO)
+            except ExtractError as e:
+                # the other functions of the unit are still verified; the functions of this lift are reported undecided
+                unit.failed_lifts[pos[0]] = str(e)
+                continue
             vrel = f"{meta['file']}#lift:{pos[1]}"
             files[pos[0]] = vrel
             unit.sources[vrel] = rsx.Source(vrel, text=text)
@@ -392,6 +399,8 @@ def build_unit(name, tpl_path, canary=False):
             # //@xexprfn name / signature + ASSUMED contract lines / //@end : external_body function whose body is the removed text
             name = pos[0]
             if name not in unit.xexprs:
+                if unit.failed_lifts:
+                    continue  # the function that uses it was skipped with its refused lift
                 raise ExtractError(f"{tpl_path}:{b.lineno}: xexprfn {name}: no `xexpr ... as {name}(..)` fired before this directive")
             sig = "\n".join("\n".join(sub[2]) for sub in b.subs)
             if not re.match(r"\s*(pub\s+)?fn\s+" + re.escape(name) + r"\b", sig):
@@ -401,6 +410,14 @@ def build_unit(name, tpl_path, canary=False):
             unit.items.append({"kind": "xexprfn", "name": name, "file": "-", "lines": [0, 0], "sha256_16": "-",
                                "rules": [{"rule": "R-XEXPR", "line": 0, "note": ("body DROPPED (the expression text is recorded under `dropped`); " if nobody else "body is the verbatim expression text; ") + "contract ASSUMED", "dropped": unit.xexprs[name][:200]}],
                                "obligation": None, "contract": sig})
+            continue
+        if alias in unit.failed_lifts:
+            head_, fns_ = group_subs(b)
+            own_ = owner_of_impl(pos[1][1:-1].lstrip("^")) if b.kind == "impl" and len(pos) > 1 else ""
+            for f_ in fns_:
+                unit.skipped.append((f"{unit.name}::{own_ + '::' if own_ else ''}{f_[0][0]}", "block lift refused: " + unit.failed_lifts[alias]))
+            if b.kind == "fn":
+                unit.skipped.append((f"{unit.name}::{pos[1]}", "block lift refused: " + unit.failed_lifts[alias]))
             continue
         if alias not in files:
             raise ExtractError(f"{tpl_path}:{b.lineno}: unknown file alias {alias}")
@@ -639,10 +656,16 @@ def verify_unit(name, rlimit=20, do_canary=True, keep=True):
     cls = classify(unit, res, text)
     out = {"unit": name, "path": path, "items": unit.items, "exec_fns": unit.exec_fns, "cheats": cheats,
            "verus": {k: res[k] for k in ("cmd", "rc", "wall_s")}, "stderr": res["stderr"][-20000:], **cls}
+    if unit.skipped:
+        for (ob, why) in unit.skipped:
+            out["undecided"].append({"msg": why, "fn": ob, "lemma": None, "tags": [], "text": why, "line": None})
+        out["skipped"] = unit.skipped
+        if out["status"] == "ok":
+            out["status"] = "undecided"
     # vacuity guard 1: every extracted exec fn must have been seen by the SMT back end or be trivially verified
     seen = set(cls["per_fn"].keys())
     out["not_seen"] = [f for f in unit.exec_fns if f not in seen]
-    if do_canary and cls["status"] == "ok":
+    if do_canary and cls["status"] == "ok" and not unit.skipped:
         cu = build_unit(name, tpl, canary=True)
         ctext = "".join(cu.out)
         cpath = os.path.join(BUILD, name + "__canary.rs")
